@@ -1,9 +1,147 @@
-"""code -> spec for C19 (placeholder until hooks are in)."""
+"""code -> spec for C19: traces of the real registry code validated by spec/RegistryTrace.tla."""
+from __future__ import annotations
+
+import json
+import re
+import tempfile
+from pathlib import Path
+
+from .core import REPO, Check, MachineryError, seed
+from .tlc import run_tlc
+from .trace import py, pytest_cmd, record
+
+REG_EVENTS = ("register", "set", "lookup")
 
 
-def run(chk, tier, rng):
-    chk.skip("trace validation not yet wired")
+def segments(events: list[dict]) -> list[dict]:
+    """Split the event stream per registry object; start a new segment whenever the logged pre-state
+    is not the previous post-state (registry replaced, mutated directly, or id reused)."""
+    segs: dict = {}
+    out = []
+    for e in events:
+        if e["ev"] not in REG_EVENTS:
+            continue
+        k = (e["pid"], e["reg"])
+        cur = segs.get(k)
+        if cur is None or cur["last_post"] != e["pre"]:
+            cur = {"init": e["pre"], "events": [], "last_post": None}
+            segs[k] = cur
+            out.append(cur)
+        ev = {"ev": e["ev"], "key": e["key"], "cls": e.get("cls", ""), "fmt": e.get("fmt", ""), "pfmt": e.get("pfmt", ""), "full": e.get("full", ""),
+              "err": e["err"], "warned": bool(e.get("warned", False)), "ret": e.get("ret", ["none", ""]), "pre": e["pre"], "post": e["post"]}
+        cur["events"].append(ev)
+        cur["last_post"] = e["post"]
+    return [{"init": s["init"], "events": s["events"]} for s in out]
 
 
-def replay(chk, r):
-    pass
+def validate(traces: list[dict], timeout=1200) -> tuple[list[int], dict]:
+    """Returns (verdict per trace: 0 accepted, else line at which it was rejected, TLC result)."""
+    keys, classes, used_as_short = set(), set(), set()
+    for t in traces:
+        keys |= set(t["init"])
+        for v in t["init"].values():
+            classes.add(v[0])
+        for e in t["events"]:
+            keys |= set(e["pre"]) | set(e["post"]) | {e["key"]}
+            for v in list(e["pre"].values()) + list(e["post"].values()):
+                classes.add(v[0])
+            if e["ev"] == "register":
+                classes.add(e["cls"])
+                keys.add(e["cls"] + ("_" + e["fmt"] if e["fmt"] else ""))
+                keys.add(e["cls"])
+            if e["ev"] == "set":
+                keys.add(e["full"])
+    short = sorted(k for k in keys if "." not in k)
+    dotted = sorted(k for k in keys if "." in k)
+    classes.discard("none")
+
+    def s(xs):
+        return "{" + ", ".join(json.dumps(x) for x in xs) + "}"
+
+    cfg = "\n".join([
+        "SPECIFICATION TraceSpec", "CONSTANTS", f"  ShortNames = {s(short)}", f"  DottedNames = {s(dotted)}",
+        f"  Classes = {s(sorted(classes))}", "  InstanceMode = FALSE", "  MaxOps = 1000000", "  Keys <- TraceKeys",
+        "CONSTRAINT Progress", "POSTCONDITION Accepted", "CHECK_DEADLOCK FALSE",
+        "INVARIANT FirstWins", "INVARIANT FullNameReachable", "INVARIANT WarnOnlyOnRegister", "INVARIANT LookupFollowsRegistry",
+        "PROPERTY TOnlySetRepoints", "PROPERTY TErrorsArePure",
+    ]) + "\n"
+    with tempfile.TemporaryDirectory(prefix="verif_c19t_") as td:
+        f = Path(td) / "traces.json"
+        f.write_text(json.dumps({"keys": sorted(keys), "traces": traces}))
+        res = run_tlc("RegistryTrace", cfg, workers=1, timeout=timeout, env={"TRACE_FILE": str(f)}, coverage=False, allow_violation=True)
+    m = re.search(r'<<\s*"VERDICT",\s*<<(.*?)>>\s*>>', res["stdout"], re.S)
+    if res["violated"] and not m:
+        # an invariant failed on a recorded execution: find which trace
+        tm = re.findall(r"/\\ tid = (\d+)", res["stdout"])
+        lm = re.findall(r"/\\ l = (\d+)", res["stdout"])
+        res["inv_trace"] = (int(tm[-1]), int(lm[-1])) if tm and lm else None
+        return [], res
+    if not m:
+        raise MachineryError("RegistryTrace: no VERDICT line\n" + res["stdout"][-2000:])
+    body = m.group(1).strip()
+    verdict = [int(x) for x in body.split(",")] if body else []
+    if len(verdict) != len(traces):
+        raise MachineryError("RegistryTrace: verdict length mismatch")
+    return verdict, res
+
+
+def collect(tier: str):
+    n = 300 if tier == "quick" else 3000
+    ev = record(py("-m", "harness.drivers_registry", str(seed()), str(n), "30"))
+    sources = [("driver", ev)]
+    tests = ["glotaran/plugin_system/test"]
+    if tier == "thorough":
+        tests += ["glotaran/builtin/io", "glotaran/project/test", "glotaran/testing/test"]
+    ev2 = record(pytest_cmd(*tests), cwd=str(REPO), must_succeed=False)
+    sources.append(("repo-tests", ev2))
+    return sources
+
+
+def run(chk: Check, tier: str, rng):
+    sources = collect(tier)
+    for name, events in sources:
+        traces = [t for t in segments(events) if t["events"]]
+        if not traces:
+            raise MachineryError(f"C19 trace source {name} produced no registry events (hooks not active?)")
+        check_traces(chk, name, traces)
+    # binding self-test (cheap, every run): one corrupted field must be rejected
+    traces = [t for t in segments(sources[0][1]) if len(t["events"]) >= 5][:20]
+    bad = json.loads(json.dumps(traces))
+    victim = next(e for t in bad for e in t["events"] if e["ev"] == "register" and not e["err"] and e["key"] in e["pre"] and e["pre"][e["key"]] != [e["cls"], e["fmt"]])
+    victim["post"][victim["key"]] = [victim["cls"], victim["fmt"]]   # "later registration replaced the short key"
+    verdict, res = validate(bad)
+    if verdict and all(v == 0 for v in verdict):
+        raise MachineryError("binding self-test failed: a corrupted registry trace was accepted")
+    chk.extra["trace_binding_selftest"] = "corrupted trace rejected"
+
+
+def check_traces(chk: Check, name: str, traces: list[dict]):
+    verdict, res = validate(traces)
+    chk.add_tlc(res, f"RegistryTrace[{name}]")
+    chk.exhaustive = chk.exhaustive  # trace validation does not affect exhaustiveness of the model run
+    if not verdict:
+        tid, line = res.get("inv_trace") or (0, 0)
+        t = traces[tid - 1] if tid else None
+        chk.violation(f"RegistryTrace[{name}]: invariant {res['violated']}",
+                      f"recorded execution violates {res['violated']} at event {line}: {json.dumps(t['events'][max(0, line - 2)] if t else None)[:600]}",
+                      {"engine": "c19-trace", "traces": [t]})
+        return
+    for i, v in enumerate(verdict):
+        t = traces[i]
+        chk.traces += 1
+        chk.evaluations += len(t["events"])
+        if any(e["pre"] != e["post"] or e["err"] or e["warned"] for e in t["events"]):
+            chk.nontriv(("trace", name, i))
+        if v != 0:
+            e = t["events"][v - 1]
+            small = {k: e[k] for k in ("ev", "key", "cls", "fmt", "full", "err", "warned", "ret")}
+            chk.violation(f"RegistryTrace[{name}]: {json.dumps(small, sort_keys=True)} pre={json.dumps(e['pre'], sort_keys=True)}",
+                          f"recorded step is not a step of Registry.tla (trace {i}, event {v}): {json.dumps(small)} post={json.dumps(e['post'])[:400]}",
+                          {"engine": "c19-trace", "traces": [t]})
+    if traces:
+        t = traces[len(traces) // 2]
+        chk.sample({"trace_source": name, "events": [{k: e[k] for k in ("ev", "key", "cls", "fmt", "full", "err", "warned")} for e in t["events"][:6]]})
+
+
+def replay(chk: Check, r):
+    check_traces(chk, "replay", r["traces"])
